@@ -80,6 +80,8 @@ type concResult struct {
 	Run      rt.RunResult
 	Races    []raceReport
 	NewRaces int
+	// TokOverflow: objects that had to share the overflow happens-before token in this run (races may be missed then)
+	TokOverflow uint64
 }
 
 func runConcurrent(sc *Scenario, sim *rt.Sim, ll []*LLValidator, pre func(task int, op *Op), watchdog time.Duration) *concResult {
@@ -122,6 +124,8 @@ func runConcurrentShared(sc *Scenario, sim *rt.Sim, ll []*LLValidator, shared []
 	}
 	cr.Run = rt.RunTasks(sim, sc.Sched, uids, fns, watchdog)
 	cr.NewRaces = raceErrors() - before
+	cr.TokOverflow = rt.TokOverflow
+	rt.TokOverflow = 0
 	if cr.NewRaces > 0 && logf != "" {
 		if b, err := os.ReadFile(logf); err == nil && int64(len(b)) > off {
 			cr.Races = parseRaceReports(string(b[off:]))
